@@ -97,6 +97,7 @@ def rule_bits(c, prog):
 
 
 def run(c, prog):
+    common.rule_configured_db(c, prog, "C03.cfgdb", ("rbx_binary",))
     rule_ids(c, prog)
     rule_bits(c, prog)
     from . import C03_frame
